@@ -29,6 +29,9 @@ def check(ctx):
     from .c10 import family_rules
 
     family_rules(ctx, {"b": "C01-e"})
+    from .c04 import check_all_steps_and_storage
+
+    check_all_steps_and_storage(ctx, "C01-g", "C01-f")
     ctx.floor("C01", len(ctx.obligs), 12, "maximum-principle obligations")
 
 
